@@ -392,7 +392,7 @@ def hx(s):
     return s.encode().hex()
 
 
-def gen_seq(rng, dname, nops, nkeys=3, paths=None, dump=True, short_ttl=True, locks=True, evict_members=0):
+def gen_seq(rng, dname, nops, nkeys=3, paths=None, dump=True, short_ttl=True, locks=True, evict_members=0, pad=None):
     """random sequence of mutating operations and reads on a few keys of one DMap, every client path"""
     paths = paths or ALLPATHS
     keys = [hx("%s-k%d" % (dname, i)) for i in range(nkeys)]
@@ -404,7 +404,7 @@ def gen_seq(rng, dname, nops, nkeys=3, paths=None, dump=True, short_ttl=True, lo
         c = rng.choice(paths)
         w = rng.random()
         if w < 0.30:
-            op = {"op": "put", "c": c, "d": dname, "k": k, "v": hx("v%d" % rng.randrange(1000))}
+            op = {"op": "put", "c": c, "d": dname, "k": k, "v": hx("v%d" % rng.randrange(1000) + ("p" * rng.choice(pad) if pad else ""))}
             x = rng.random()
             if x < 0.15:
                 op["nx"] = True
@@ -430,7 +430,7 @@ def gen_seq(rng, dname, nops, nkeys=3, paths=None, dump=True, short_ttl=True, lo
         elif w < 0.58:
             ops.append({"op": "expire", "c": c, "d": dname, "k": k, "ms": rng.choice([60000, 200] if short_ttl else [60000])})
         elif w < 0.66:
-            ops.append({"op": "getput", "c": c, "d": dname, "k": k, "v": hx("g%d" % rng.randrange(1000))})
+            ops.append({"op": "getput", "c": c, "d": dname, "k": k, "v": hx("g%d" % rng.randrange(1000) + ("p" * rng.choice(pad) if pad else ""))})
         elif w < 0.78:
             cc = c if c != "pipe" or True else "cc"
             ops.append({"op": rng.choice(["incr", "decr"]), "c": cc, "d": dname, "k": k, "delta": rng.randrange(1, 50)})
